@@ -600,10 +600,31 @@ def rule_blocksoft(ctx):
                     cond = strip(cond["e"])
                 if cond.get("k") == "Binary" and {peel_refs(cond["l"]).get("local"), peel_refs(cond["r"]).get("local")} == {den, num}:
                     guard = cond
+        negate = False
+        if guard is None:
+            # the same test as an if / else expression: the division sits in the branch that the zero region does not take
+            from .layout import with_parents
+            for y, anc in with_parents(fn["body"]):
+                if y is not div:
+                    continue
+                for a in anc:
+                    if a.get("k") != "If" or a.get("else") is None:
+                        continue
+                    cond = strip(a["c"])
+                    while cond.get("k") in ("DropTemps", "Paren"):
+                        cond = strip(cond["e"])
+                    if cond.get("k") == "Binary" and {peel_refs(cond["l"]).get("local"), peel_refs(cond["r"]).get("local")} == {den, num}:
+                        in_else = any(z is div for z in walk(a["else"]))
+                        in_then = any(z is div for z in walk(a["then"]))
+                        if in_else or in_then:
+                            guard, negate = cond, in_then
         if guard is None:
             res.violate("%s : division-unguarded" % key, "`%s` is formed without an early return for norm <= threshold" % r.e(div)[:40], fn_loc(fn, div.get("ln")))
             continue
         op = guard["op"] if peel_refs(guard["l"]).get("local") == den else {"<": ">", "<=": ">=", ">": "<", ">=": "<=", "==": "==", "!=": "!="}[guard["op"]]
+        if negate:
+            # the division is taken when `den op num` holds: the zero region is the complement
+            op = {">": "<=", ">=": "<", "<": ">=", "<=": ">", "==": "!=", "!=": "=="}[op]
         if op == "<=":
             res.ok()
         elif op == "<":
